@@ -448,7 +448,7 @@ def run(res):
                             "zero-deadline", "past-deadline", "deadline-nsec-at-boundary"]}
     cases = load_corpus()
     ncorpus = len(cases)
-    ngen = 250 if res.tier == "quick" else 3500
+    ngen = 200 if res.tier == "quick" else 3500
     for i in range(ngen):
         cases.append(gen_case(rng, i, kinds))
     nwall = 2 if res.tier == "quick" else 6
